@@ -96,13 +96,15 @@ def grammar_case(fggs, rng, tier, seed, index, viols, obs):
     rng.shuffle(order)
     old_default = torch.get_default_dtype()
     torch.set_default_dtype(torch.float64 if default64 else torch.float32)
-    info_ = dict(idmode=idmode, domains=kind, patterned=typed, weight_dtype=str(wdtype), default_dtype='float64' if default64 else 'float32')
+    odd_ids = idmode != 'implicit' and (index // 7) % 3 == 0      # '', '0', 'None', ' ' ... are ids like any other
+    info_ = dict(idmode=idmode, domains=kind, patterned=typed, weight_dtype=str(wdtype), default_dtype='float64' if default64 else 'float32', odd_ids=odd_ids)
 
     def V(sig, msg, **kw):
         viols.append(C.viol(sig, msg, spec=spec, setup=info_, **kw))
     try:
         g, info = G.build_fgg(fggs, spec, 'real', wdtype, explicit_ids={'explicit': True, 'implicit': False, 'mixed': 'mixed'}[idmode],
-                              rule_order=order, domain_kind=kind, domain_values=domvals, weight_builder=builder)
+                              rule_order=order, domain_kind=kind, domain_values=domvals, weight_builder=builder,
+                              id_namer=G.odd_id_namer if odd_ids else None)
         out = C.call(F.fgg_to_json, g)
         obs['to_json_calls'] += 1
         if not out['ok']:
@@ -114,12 +116,40 @@ def grammar_case(fggs, rng, tier, seed, index, viols, obs):
         except Exception as e:
             V('json.dumps-rejects', f'json.dumps rejected the object: {type(e).__name__}: {e}')
             return spec, info_
+        # explicit ids given through the API are the ids written (read off the JSON object itself)
+        jn = sorted(n['id'] for r in j1['grammar']['rules'] for n in r['rhs']['nodes'] if 'id' in n)
+        je = sorted(e['id'] for r in j1['grammar']['rules'] for e in r['rhs']['edges'] if 'id' in e)
+        obs['id_lists_compared'] = obs.get('id_lists_compared', 0) + 1
+        if jn != sorted(info['given_ids']['n']) or je != sorted(info['given_ids']['e']):
+            V('explicit-ids-not-written', f'ids given: nodes {sorted(info["given_ids"]["n"])} edges {sorted(info["given_ids"]["e"])}; ids in the JSON: nodes {jn} edges {je}')
         out = C.call(F.json_to_fgg, json.loads(text))
         obs['from_json_calls'] += 1
         if not out['ok']:
             V(f"exception:json_to_fgg:{out['exc_type']}:{out.get('where', '')}", f'json_to_fgg of the produced JSON raised {out["exc"]}', traceback=out['tb'])
             return spec, info_
         g2 = out['value']
+        # JSON-side variant: rename the explicit ids *in the JSON text* (pure data manipulation) to odd but valid
+        # strings; the loaded grammar must persist exactly those
+        if (index // 5) % 2 == 0:
+            jx = json.loads(text)
+            want_n, want_e = [], []
+            for r in jx['grammar']['rules']:
+                for kind_, items, want in (('n', r['rhs']['nodes'], want_n), ('e', r['rhs']['edges'], want_e)):
+                    k = 0
+                    for it in items:
+                        if 'id' in it:
+                            it['id'] = G.odd_id_namer(kind_, 0, k) if k < len(G.ODD_IDS) else it['id']
+                            k += 1
+                            want.append(it['id'])
+            ox = C.call(F.json_to_fgg, jx)
+            obs['from_json_calls'] += 1
+            if not ox['ok']:
+                V(f"exception:json_to_fgg:odd-ids:{ox['exc_type']}:{ox.get('where', '')}", f'json_to_fgg of JSON with ids {want_n[:4]} raised {ox["exc"]}', traceback=ox['tb'])
+            else:
+                got_n = sorted(n.id for r in ox['value'].all_rules() for n in r.rhs.nodes() if n.persist_id)
+                got_e = sorted(e.id for r in ox['value'].all_rules() for e in r.rhs.edges() if e.persist_id)
+                if got_n != sorted(want_n) or got_e != sorted(want_e):
+                    V('explicit-ids-not-loaded', f'ids in the JSON: nodes {sorted(want_n)} edges {sorted(want_e)}; persistent ids of the loaded grammar: nodes {got_n} edges {got_e}')
         va, vb = grammar_view(g), grammar_view(g2)
         compare_grammars(va, vb, V, 'fgg round trip')
         obs['iso_checks'] += len(va['rules'])
@@ -268,7 +298,7 @@ def weights_case(fggs, rng, index, viols, obs):
         obs['json_to_weights_calls'] += 1
         if not out['ok']:
             viols.append(C.viol(f"json_to_weights:no-vaxes:{out['exc_type']}", f'dict form without "vaxes" raised {out["exc"]}', context=dict(weight_spec=j3)))
-        elif not torch.equal(A.densify_pt(out['value']).reshape(e3.shape), e3):
+        elif tuple(A.densify_pt(out['value']).shape) != tuple(e3.shape) or not torch.equal(A.densify_pt(out['value']), e3):
             viols.append(C.viol('json_to_weights:no-vaxes:value', 'dict form without "vaxes" does not denote physical (expanded)', context=dict(weight_spec=j3)))
     return jspec
 
@@ -286,7 +316,7 @@ def run_case(tier, seed, index, spec=None):
         return dict(cls='weights', features=['expand' if 'expand' in js else 'no-expand'], verdict='violated' if viols else 'held', violations=viols, obs=obs,
                     nontrivial=nontriv, key=C.hkey(js), sample=dict(weight_spec=js))
     sp, info_ = grammar_case(fggs, rng, tier, seed, index, viols, obs)
-    feats = sorted(G.features_of(sp)) + [f'ids-{info_["idmode"]}', f'domains-{info_["domains"]}', 'patterned' if info_['patterned'] else 'dense', 'default-' + info_['default_dtype']]
+    feats = sorted(G.features_of(sp)) + [f'ids-{info_["idmode"]}', f'domains-{info_["domains"]}', 'patterned' if info_['patterned'] else 'dense', 'default-' + info_['default_dtype']] + (['odd-ids'] if info_['odd_ids'] else [])
     return dict(cls='grammar', features=feats, verdict='violated' if viols else 'held', violations=viols, obs=obs,
                 nontrivial=len(sp['rules']) >= 2 and info_['idmode'] != 'explicit', key=G.spec_key(sp) + info_['idmode'], sample=dict(spec=G.describe(sp), setup=info_))
 
@@ -296,7 +326,7 @@ def finalize(tot, tier, seed):
     for k in ('to_json_calls', 'from_json_calls', 'iso_checks', 'weights_compared', 'sum_product_compared', 'verbatim_checks', 'rejection_attempts', 'json_to_weights_calls'):
         if tot['obs'].get(k, 0) == 0:
             inc.append(f'{k} never observed')
-    for f in ('ids-explicit', 'ids-implicit', 'ids-mixed', 'domains-range', 'domains-finite', 'patterned', 'dense', 'inf-weight', 'start-arity', 'expand'):
+    for f in ('ids-explicit', 'ids-implicit', 'ids-mixed', 'domains-range', 'domains-finite', 'patterned', 'dense', 'inf-weight', 'start-arity', 'expand', 'odd-ids'):
         if tot['features'].get(f, 0) == 0:
             inc.append(f'feature {f} never generated')
     return {}, inc
